@@ -98,8 +98,10 @@ def run(chk, tier, overlays=()):
         typestate(chk, P, cls)
     reachdef(chk, P)
     reinit(chk, P)
+    window(chk, P)
     chk.floor("TYPESTATE", 30)
     chk.floor("REACHDEF", 6)
+    chk.floor("WINDOW", 6)
 
 
 def typestate(chk, P, cls):
@@ -239,6 +241,42 @@ def reachdef(chk, P):
     chk.judge(bool(st), "REACHDEF", "CPodes:stop-time=userFinalTime", g.loc, "CPodes' tstop is set from userFinalTime (in %s)" % sorted(set(st)))
 
 
+def window(chk, P):
+    chk.rule("WINDOW", "AbstractIntegratorRep::takeOneStep: an event window (tLow,tHigh] is reported (setTriggeredEvents) only on paths that compared the pending report "
+             "time with both window ends -- either the early exit guarded by !(tLow < tReport && tReport < tHigh) or the bisection loop, whose split point is tReport "
+             "whenever tReport lies strictly inside the current window: a report time can then never be strictly inside a reported window")
+    f = P.fn(AIR + "::takeOneStep")
+    trep = f.d["params"][1][0]
+    sites = [(b, i, e) for b, i, e in f.calls(IR + "::setTriggeredEvents")]
+    chk.judge(len(sites) == 2, "WINDOW", "two-report-sites", f.loc, "early exit and post-bisection report sites (found %d)" % len(sites))
+    def mentions(c, lo, hi):
+        return bool(sx_find(c, lambda y: y[0] == "var" and y[1] == trep)) and (bool(sx_find(c, lambda y: y[0] == "var" and y[1] == lo)) or bool(sx_find(c, lambda y: y[0] == "var" and y[1] == hi)))
+    for n, (b, i, e) in enumerate(sites):
+        a = call_args(e)
+        lo, hi = var_of(a[0]), var_of(a[1])
+        site = "%s:%d" % (f.file, e["line"])
+        chk.judge(lo is not None and hi is not None and lo != hi, "WINDOW", "site%d:reports(tLow,tHigh)" % n, site, "window ends passed are two local variables")
+        lo_blocks = {bb for bb, blk in f.blocks.items() if blk.get("term") and blk["term"].get("cond") is not None and
+                     sx_find(blk["term"]["cond"], lambda y: y[0] == "op" and y[1] == "<" and var_of(y[2]) == lo and var_of(y[3]) == trep) and blk["term"]["k"] in ("&&", "||", "if", "cond")}
+        hi_blocks = {bb for bb, blk in f.blocks.items() if blk.get("term") and blk["term"].get("cond") is not None and
+                     sx_find(blk["term"]["cond"], lambda y: y[0] == "op" and y[1] == "<" and var_of(y[2]) == trep and var_of(y[3]) == hi)}
+        p = f.path_exists(None, lambda q: q is e, lambda q: False, avoid_blocks=lo_blocks)
+        chk.judge(bool(lo_blocks) and p is None, "WINDOW", "site%d:tLow<tReport-tested-on-every-path" % n, site,
+                  "an event window is reported on a path that never compared the report time with the window's low end", p)
+        chk.judge(bool(hi_blocks), "WINDOW", "site%d:tReport<tHigh-tested" % n, site, "the report time is also compared with the window's high end")
+    # the bisection splits at tReport when it is inside
+    mids = [d for _, _, d in f.events(lambda d: d["k"] == "decl" and d["init"] is not None and isinstance(d["init"], list) and d["init"][0] == "cond" and
+                                      var_of(d["init"][2]) == trep)]
+    chk.judge(len(mids) == 1 and _in_loop_decl(f, mids[0]), "WINDOW", "bisection-splits-at-tReport", f.loc,
+              "inside the localisation loop the split point is tReport whenever tLow < tReport && tReport < tHigh")
+
+
+def _in_loop_decl(f, d):
+    for b, i, e in f.events(lambda q: q is d):
+        return f.loop_depth(b) > 0
+    return False
+
+
 def reinit(chk, P):
     f = P.fn(IR + "::reinitialize")
     term = f.d["params"][1][0]
@@ -255,6 +293,9 @@ _A = "SimTKmath/Integrators/src/AbstractIntegratorRep.cpp"
 _C = "SimTKmath/Integrators/src/CPodesIntegrator.cpp"
 _I = "SimTKmath/Integrators/src/Integrator.cpp"
 MUTATIONS = [
+    dict(name="seeded (sub-agent): narrow step reported as event window without looking at the report time", file=_A,
+         old="    if (    (tHigh-tLow) <= narrowestWindow \n        && !(tLow < tReport && tReport < tHigh)) \n    {", new="    if ((tHigh-tLow) <= narrowestWindow) {",
+         expect="WINDOW:site0"),
     dict(name="EndOfSimulation returned without latching the final status", arm=True, file=_A,
          old="                  setUseInterpolatedState(false);\n                  setStepCommunicationStatus(FinalTimeHasBeenReturned);\n                  terminationReason",
          new="                  setUseInterpolatedState(false);\n                  terminationReason", expect="T1:EndOfSimulation#0:status"),
